@@ -23,7 +23,8 @@ VARS = {  # name -> document description for the oracle (n = value * 16)
     "t": {"kind": "true"}, "f": {"kind": "false"}, "nul": {"kind": "null"},
     "txt": {"kind": "str", "s": [97, 98, 99], "isnum": 0, "n": 0}, "txt2": {"kind": "str", "s": [97, 98, 100], "isnum": 0, "n": 0},
     "empty": {"kind": "str", "s": [], "isnum": 0, "n": 0},
-    "sp": {"kind": "str", "s": [49, 50, 97, 98, 99], "isnum": 0, "n": 0}, "sd": {"kind": "str", "s": [50, 48, 50, 52, 45, 48, 49, 45, 48, 53], "isnum": 0, "n": 0},   # "12abc", "2024-01-05": a numeric prefix is not a number "arr": {"kind": "arr"}, "obj": {"kind": "obj"}, "missing": {"kind": "missing"},
+    # "12abc", "2024-01-05": a numeric prefix is not a number
+    "sp": {"kind": "str", "s": [49, 50, 97, 98, 99], "isnum": 0, "n": 0}, "sd": {"kind": "str", "s": [50, 48, 50, 52, 45, 48, 49, 45, 48, 53], "isnum": 0, "n": 0}, "arr": {"kind": "arr"}, "obj": {"kind": "obj"}, "missing": {"kind": "missing"},
 }
 LITS = [("0", 0), ("1", 16), ("2", 32), ("3", 48), ("7", 112), ("-2", -32), ("0.5", 8), ("2.5", 40), ("5e-1", 8), ("25e-1", 40), ("10", 160), ("1.0", 16)]
 
